@@ -148,6 +148,14 @@ def run(ctx, chk, tier="quick"):
                 return "x"
             return None
 
+        # every bound the argument is clamped against must be the first or the last knot
+        foreign = [n for n in ast.walk(arg) if isinstance(n, ast.Subscript) and "self.%s" % tck_attr in ast.unparse(n)
+                   and _tck_end(n, tck_attr) is None and isinstance(n.value, ast.Subscript)]
+        if foreign:
+            chk.ob("C14.O2", False, where_of(call, ev0), "argument clamped against %s" % ast.unparse(foreign[0]),
+                   "the first knot self.%s[0][0] and the last knot self.%s[0][-1]" % (tck_attr, tck_attr),
+                   key="Spline.__call__|clamp|bounds", why="clamping against an interior knot or a coefficient makes the function constant inside the knot range")
+            cells = []
         for label, cell, want in cells:
             try:
                 got = CellEval(cell, sym_of).eval(arg)
@@ -360,8 +368,11 @@ def _integrate(ctx, chk, mod, tck_attr):
         except Bad as exc:
             ok, found, req = False, str(exc), "assertions hold"
         except Undecided as exc:
-            chk.indeterminate("C14.O3", where_of(f, f.node), "cell %s not evaluable: %s" % (label, exc))
-            continue
+            if "unbounded recursion" in str(exc):
+                ok, found, req = False, "the call recurses without swapping its limits", "terminates with -integrate(b, a)"
+            else:
+                chk.indeterminate("C14.O3", where_of(f, f.node), "cell %s not evaluable: %s" % (label, exc))
+                continue
         if ok:
             n_ok += 1
             if n_ok <= 6:
